@@ -169,6 +169,14 @@ pub fn cases() -> Vec<Case> {
     v.push(case("decl/duplicate-constructor-same-payload", Reject, "begin\nlet D = data | +A : Int64 | +B : Unit | +A : Int64 end that\nlet d : D = +A(7) that\nmatch d | +A(n) => ! exit n | +B() => ! exit 1 end\nend\n"));
     v.push(case("decl/duplicate-destructor-let", Reject, "begin\nlet K = codata | .a : Ret Int64 | .a : Ret String end that\nlet o : Thk K = { comatch | .a => ret 1 end } that\ndo s <- ! o .a;\n! write_line s { ! exit 0 }\nend\n"));
     v.push(case("decl/duplicate-destructor-def", Reject, "begin\ndef K : CType = codata | .a : Ret String | .a : Ret Int64 end that\nlet o : Thk K = { comatch | .a => ret \"s\" end } that\ndo n <- ! o .a;\ndo m <- ! add n 1;\n! exit m\nend\n"));
+    // (the two cases above are also ill-typed at their use; these two are well-typed but for the repeated name, whichever
+    // arm a look-up takes)
+    v.push(case("decl/duplicate-destructor-first-arm-used-consistently", Reject, "begin\nlet K = codata | .a : Ret Int64 | .a : Ret Unit end that\nlet o : Thk K = { comatch | .a => ret 0 end } that\ndo n <- ! o .a;\n! exit n\nend\n"));
+    v.push(case("decl/duplicate-destructor-same-type", Reject, "begin\ndef K : CType = codata | .a : Ret Int64 | .b : OS | .a : Ret Int64 end that\nlet o : Thk K = { comatch | .a => ret 0 | .b => ! exit 1 end } that\ndo n <- ! o .a;\n! exit n\nend\n"));
+    // a binder is a value binder: `_` is no more a pattern at a computation type than `x` is
+    v.push(case("binder/wildcard-at-computation-type", Reject, "let f = { fn (_ : Ret Int64) => ret 0 } in\n! exit 0\n"));
+    v.push(case("binder/variable-at-computation-type", Reject, "let f = { fn (x : Ret Int64) => ret 0 } in\n! exit 0\n"));
+    v.push(case("binder/wildcard-at-computation-type-in-let", Reject, "let t = { ret 1 } in\nlet (_ : Ret Int64) = t in\n! exit 0\n"));
     // `fix (x : T) => M` binds a thunk of M: T must be `Thk B`, also where the fix synthesises its type
     v.push(case("fix/binder-not-a-thunk-in-synthesis", Reject, "begin\ndef ! weird (F : CType -> VType) (use : Thk (F (Int64 -> Ret Int64) -> Ret Int64)) : Ret Int64 =\n  (fix (self : F (Int64 -> Ret Int64)) => fn (x : Int64) => ! use self) 5\nthat\nlet Const (B : CType) = Int64 that\ndo n <- ! weird Const { fn (i : Int64) => ! add i 1 };\n! exit n\nend\n"));
     v.push(case("fix/binder-thunk-in-synthesis-ok", Accept, "do n <- (fix (self : Thk (Int64 -> Ret Int64)) => fn (x : Int64) => ret x) 5;\n! exit n\n"));
